@@ -431,6 +431,20 @@ func passesFilters(doc *Command, currentPlatform string, options SearchOptions) 
 	return true
 }
 
+// FilterResults keeps the results that pass the platform and pipeline filters of options.
+// It lets callers that obtain results outside SearchUniversal (e.g. the CLI's recovery
+// search) apply the same gate.
+func FilterResults(results []SearchResult, options SearchOptions) []SearchResult {
+	currentPlatform := getCurrentPlatform()
+	kept := make([]SearchResult, 0, len(results))
+	for _, r := range results {
+		if r.Command != nil && passesFilters(r.Command, currentPlatform, options) {
+			kept = append(kept, r)
+		}
+	}
+	return kept
+}
+
 func (db *Database) enhanceQueryWithNLP(query string, terms []string) (pq *nlp.ProcessedQuery, enhancedTerms []string) {
 	processor := nlp.NewQueryProcessor()
 	pq = processor.ProcessQuery(query)
